@@ -50,7 +50,8 @@ def cases(draw, tier):
     return {"table": spec, "axis": draw(ops.AX), "mask": draw(ops.MASK),
             "order": draw(ops.KEY), "variant": variant,
             "style": draw(st.sampled_from(STYLES)),
-            "unknown": draw(st.sampled_from([False] * 7 + [True])),
+            "unknown": draw(st.sampled_from([False] * 6 + ["fixed", "suffix",
+                                                           "prefix", "case"])),
             "sub": variant.startswith("cli") and draw(st.sampled_from(SUB))}
 
 
@@ -100,8 +101,22 @@ def check(case, rec):
                   ops.perm_from_key(len(chosen), case["order"])]
         request = list(chosen)
         if case["unknown"]:
-            request.insert(len(request) // 2, "id-that-is-not-in-the-file")
-            rec.cls("unknown-id-request")
+            # an ID that is not in the file: unrelated, or a near miss of an
+            # existing one (longest ID + suffix, truncated, case-flipped)
+            longest = max(ids, key=len)
+            cand = {"fixed": "id-that-is-not-in-the-file",
+                    "suffix": longest + "_rep2",
+                    "prefix": longest[:-1] or "q",
+                    "case": longest.swapcase()}.get(case["unknown"],
+                                                    "id-that-is-not-in-the-file")
+            if cand in ids or not cand.strip() or cand != cand.strip() or \
+                    cand.startswith("#"):
+                cand = "id-that-is-not-in-the-file"
+            if case["unknown"] != "fixed" and longest in request and \
+                    len(request) > 1:
+                request.remove(longest)
+            request.insert(len(request) // 2, cand)
+            rec.cls("unknown-id-request:%s" % case["unknown"])
         exp = ref.filter_ids(axis, chosen)
         drops = variant in ("from_hdf5", "parse_json", "cli_hdf5")
         exp_dropped = exp.take(other_axis, exp.nonempty_idx(other_axis))
@@ -189,7 +204,7 @@ REGRESSIONS = [
                "table_id": None, "form": "dense", "history": [],
                "obs_gmd": None, "samp_gmd": None},
      "axis": "sample", "mask": [True, False, True], "order": [0],
-     "variant": v, "style": s, "unknown": u}
+     "variant": v, "style": s, "unknown": "fixed" if u else False}
     for v, s, u in [("from_hdf5", "library", False),
                     ("from_hdf5_nomd", "library", False),
                     ("from_hdf5_nomd", "library", True),
